@@ -301,6 +301,20 @@ func (r *DenseReal32Matrix) MDIVS(a *DenseReal32Matrix, b *Real32) Matrix {
   return r
 }
 /* -------------------------------------------------------------------------- */
+// True if a is the same view on the same storage as r, i.e. if every
+// element of a is the element of r at the same position.
+func (r *DenseReal32Matrix) isSameView(a_ ConstMatrix) bool {
+  a, ok := a_.(*DenseReal32Matrix)
+  if !ok {
+    return false
+  }
+  return r.storageLocation() == a.storageLocation() &&
+         r.rows == a.rows && r.cols == a.cols &&
+         r.rowOffset == a.rowOffset && r.rowMax == a.rowMax &&
+         r.colOffset == a.colOffset && r.colMax == a.colMax &&
+         r.transposed == a.transposed
+}
+/* -------------------------------------------------------------------------- */
 // Matrix product of a and b. The result is stored in r.
 func (r *DenseReal32Matrix) MdotM(a, b ConstMatrix) Matrix {
   n , m := r.Dims()
@@ -308,6 +322,15 @@ func (r *DenseReal32Matrix) MdotM(a, b ConstMatrix) Matrix {
   n2, m2 := b.Dims()
   if n1 != n || m2 != m || m1 != n2 {
     panic("matrix dimensions do not match!")
+  }
+  // r itself may be a factor, the schedules below take care of that. Any
+  // other view on the storage of r (its transpose or a slice at another
+  // offset) would be overwritten while it is still needed
+  if r.storageLocation() == a.storageLocation() && !r.isSameView(a) {
+    a = a.CloneConstMatrix()
+  }
+  if r.storageLocation() == b.storageLocation() && !r.isSameView(b) {
+    b = b.CloneConstMatrix()
   }
   t1 := NewReal32(0.0)
   t2 := NewReal32(0.0)
@@ -355,6 +378,15 @@ func (r *DenseReal32Matrix) MDOTM(a, b *DenseReal32Matrix) Matrix {
   n2, m2 := b.Dims()
   if n1 != n || m2 != m || m1 != n2 {
     panic("matrix dimensions do not match!")
+  }
+  // r itself may be a factor, the schedules below take care of that. Any
+  // other view on the storage of r (its transpose or a slice at another
+  // offset) would be overwritten while it is still needed
+  if r.storageLocation() == a.storageLocation() && !r.isSameView(a) {
+    a = a.Clone()
+  }
+  if r.storageLocation() == b.storageLocation() && !r.isSameView(b) {
+    b = b.Clone()
   }
   t1 := NewReal32(0.0)
   t2 := NewReal32(0.0)
